@@ -114,7 +114,7 @@ ZERO_PARAM_MODELS = [('ising', (1.0, 0.0, 0.0)), ('ising', (0.7, 0.0, 0.4)), ('i
                      ('fermi', (1.0, 0.0, 0.0)), ('fermi', (0.0, 1.0, 0.0))]
 
 PROFILES = ['one', 'random', 'max', 'over', 'disjoint', 'deficient']
-LAYOUTS = ['zero', 'sorted', 'unsorted', 'repeated', 'pairs']
+LAYOUTS = ['zero', 'sorted', 'unsorted', 'repeated', 'pairs', 'huge']
 KINDS = ['complex', 'real', 'int', 'float32', 'mixed']
 
 
@@ -125,6 +125,9 @@ def _qd(rng, d, layout):
         return np.full(d, int(rng.integers(-1, 2)))
     if layout == 'pairs':
         return (rng.integers(0, 2, size=d) << 16) + rng.integers(-1, 2, size=d)
+    if layout == 'huge':
+        # physical charges beyond 2**53 differing by single units (sums over <= 8 sites stay inside int64, but are not representable as doubles)
+        return int(rng.choice([(1 << 53) + 1, -(1 << 55) - 3])) + rng.integers(-1, 2, size=d).astype(np.int64)
     q = rng.integers(-1, 2, size=d)
     return np.sort(q) if layout == 'sorted' else q
 
